@@ -175,8 +175,11 @@ class LineTracer:
         if event == 'line' and self.depth_save > 0:
             e = self.count
             self.count += 1
+            f = frame
+            while f is not None and not (f.f_code.co_filename == CACHE_FILE and f.f_code.co_name == 'save'):
+                f = f.f_back
             info = dict(e=e, func=frame.f_code.co_name, file=os.path.basename(frame.f_code.co_filename),
-                        lineno=frame.f_lineno, **self.st.counters())
+                        lineno=frame.f_lineno, save_lineno=(f.f_lineno if f is not None else None), **self.st.counters())
             self.events.append((info['func'], info['lineno']))
             if self.target is not None and e == self.target and self.action is not None:
                 act, self.action = self.action, None
@@ -239,8 +242,16 @@ def crash_k(point, n1, m1):
     raise ValueError(point)
 
 
+def line_after_region(info):
+    """a line of save() executed after the guarded region was left (a `finally:` / `else:` clause or code behind the
+    try statement - the pinned source has none): no micro-step of the model corresponds to a fault there"""
+    return LM['try_line'] is not None and not line_in_try(info) and info['fh_started'] > 0
+
+
 def line_k(info, n1, m1):
     """k = number of micro-steps completed at a counted line event (info from LineTracer)"""
+    if line_after_region(info):
+        return 9 + n1 + m1
     func, lineno = info['func'], info['lineno']
     started, done, closed, w = info['fh_started'], info['fh_done'], info['closed'], info['w']
     if started > done:
@@ -269,9 +280,13 @@ def line_k(info, n1, m1):
 
 
 def line_in_try(info):
-    """is a line event lexically protected by save's try (deeper frames always are)"""
+    """is a line event protected by save's try: the line save() itself is executing (for a deeper frame: the call
+    site in save) lies in the try body - observed on the stack, so helpers extracted from save() are classified by
+    where they are called from"""
     if LM['try_line'] is None:
         return False
+    if info.get('save_lineno') is not None:
+        return LM['try_line'] <= info['save_lineno'] <= LM['try_body_last']
     if info['func'] == 'save' and info['file'] == 'cache.py':
         return LM['try_line'] <= info['lineno'] <= LM['try_body_last']
     return True
